@@ -29,7 +29,7 @@ func runC05(c *mon.Ctx) {
 	versions := sortedVersions()
 	types := append(append([]string{}, gen.ProtectedTypes...), gen.OtherTypes...)
 	nums := append(append([]string{}, gen.SafeNumbers...), gen.SafeFractions...)
-	nVariants := c.Scale(24, 480)
+	nVariants := c.Scale(24, 3200)
 	for _, ver := range versions {
 		t := ref.Traits(string(ver))
 		if t == nil {
@@ -87,7 +87,7 @@ func runC05(c *mon.Ctx) {
 	// built events: PDU.Redact keeps identity and signatures
 	id := gen.NewIdentity(c.RandShared("id"), "a.example", "ed25519:k1")
 	id2 := gen.NewIdentity(c.RandShared("id2"), "b.example:8448", "ed25519:other")
-	nBuilt := c.Scale(20, 400)
+	nBuilt := c.Scale(20, 2400)
 	for _, ver := range versions {
 		t := ref.Traits(string(ver))
 		if t == nil {
